@@ -255,4 +255,43 @@ def register(T, repo):
     c.replay_candidates = sub_candidates
     T.empty_hints[(U + 'substitute', 93)] = 'ilist'
 
+
+    # ----------------------------------------------------- filter_set_toks
+    from pyvc.contracts import OptS
+    from pyvc.engine import OptVal, TypeOf, ClassRef
+
+    def typ_tag(ex, v):
+        if v is None:
+            return None
+        if isinstance(v, OptVal):
+            return v
+        if isinstance(v, ClassRef):
+            return ex.tag(v.qual)
+        if isinstance(v, TypeOf):
+            return v.tag
+        raise sym.EngineError('tok_typ %r' % (v,))
+
+    def fst_result(A):
+        ex = A['$ex']
+        tt = typ_tag(ex, A['tok_typ'])
+
+        def pred(ex_, t):
+            parts = [tm.cls_inv(ex_, t),
+                     zint(t.fields['pos']) == zint(A['pos'])]
+            if tt is None:
+                pass
+            elif isinstance(tt, OptVal):
+                parts.append(Implies(Not(tt.isnone), zint(ex_.cls_of(t)) ==
+                                     zint(tt.val.tag)))
+            else:
+                parts.append(zint(ex_.cls_of(t)) == zint(tt))
+            return And(*parts)
+        return ListS(tm.TokS(pred, name='fs'), None, 'filtered', fresh=True)
+
+    c = T.add(FContract(
+        U + 'filter_set_toks',
+        params={'toks': ListS(tm.TokS(lambda ex, t: tm.cls_inv(ex, t)),
+                              None, 'toks'),
+                'pos': IntS(name='pos'), 'tok_typ': OptS(tm.ClassS())},
+        result=fst_result, pure=True))
     return T
